@@ -4,6 +4,7 @@ import (
 	"bufio"
 	"context"
 	"encoding/json"
+	"errors"
 	"fmt"
 	"io"
 	"os"
@@ -11,6 +12,7 @@ import (
 	"strconv"
 	"strings"
 	"sync"
+	"sync/atomic"
 	"time"
 
 	"github.com/c2h5oh/datasize"
@@ -22,6 +24,8 @@ import (
 	"github.com/yandex/pandora/core/datasink"
 	"github.com/yandex/pandora/lib/ioutil2"
 	"go.uber.org/zap"
+	"go.uber.org/zap/zapcore"
+	"go.uber.org/zap/zaptest/observer"
 
 	"verifharness/internal/vh"
 )
@@ -51,6 +55,11 @@ type jsonSample struct {
 	Vals [10]int `json:"vals"`
 }
 
+// Return makes the sample a core.BorrowedSample: the aggregator hands it back after encoding it
+// (coreutil.ReturnSampleIfBorrowed); like a pool would, Return wipes it - a sample handed back
+// before it was encoded would give a wrong line.
+func (s *jsonSample) Return() { *s = jsonSample{} }
+
 func mkJSONSample(id uint64) *jsonSample {
 	return &jsonSample{ID: id, Tag: sampleTag(id), Ns: sampleNs(id), Vals: sampleFields(id)}
 }
@@ -68,7 +77,80 @@ func (e *tabEncoder) Encode(s core.Sample) error {
 }
 func (e *tabEncoder) Flush() error { return e.w.Flush() }
 
+// tabCloserEncoder: a SampleEncodeCloser ("REQUIRES a Close call to finish encoding"): the LF that ends a
+// line is written lazily, by the next Encode or by Close; Flush cannot finish the last line.
+type tabCloserEncoder struct {
+	w       *bufio.Writer
+	pending bool
+}
+
+func (e *tabCloserEncoder) Encode(s core.Sample) error {
+	if e.pending {
+		if err := e.w.WriteByte('\n'); err != nil {
+			return err
+		}
+	}
+	e.pending = true
+	_, err := e.w.WriteString(s.(*netsample.Sample).String())
+	return err
+}
+func (e *tabCloserEncoder) Flush() error { return e.w.Flush() }
+func (e *tabCloserEncoder) Close() error {
+	if e.pending {
+		e.pending = false
+		if err := e.w.WriteByte('\n'); err != nil {
+			return err
+		}
+	}
+	return e.w.Flush()
+}
+
 type reporter func(id uint64)
+
+// failFs: a memory file system whose files accept `left` more bytes and then fail every Write
+// (disk full, broken pipe). The failing Write stores the part that still fits (a short write).
+type failFs struct {
+	afero.Fs
+	left int64
+}
+
+var errInjected = errors.New("injected write failure")
+
+type failFile struct {
+	afero.File
+	fs *failFs
+}
+
+func (f *failFile) Write(p []byte) (int, error) {
+	left := atomic.LoadInt64(&f.fs.left)
+	if int64(len(p)) <= left {
+		atomic.AddInt64(&f.fs.left, -int64(len(p)))
+		return f.File.Write(p)
+	}
+	atomic.StoreInt64(&f.fs.left, 0)
+	if left > 0 {
+		_, _ = f.File.Write(p[:left])
+	}
+	return int(left), errInjected
+}
+
+func (f *failFile) WriteString(s string) (int, error) { return f.Write([]byte(s)) }
+
+func (s *failFs) Create(name string) (afero.File, error) {
+	f, err := s.Fs.Create(name)
+	if err != nil {
+		return nil, err
+	}
+	return &failFile{File: f, fs: s}, nil
+}
+
+func (s *failFs) OpenFile(name string, flag int, perm os.FileMode) (afero.File, error) {
+	f, err := s.Fs.OpenFile(name, flag, perm)
+	if err != nil {
+		return nil, err
+	}
+	return &failFile{File: f, fs: s}, nil
+}
 
 // stallFs: a memory file system whose files block in their FIRST Write for the given time
 // (an output that stalls: slow disk, blocked pipe). Everything else is afero's MemMapFs.
@@ -124,13 +206,23 @@ func (s *stallFs) OpenFile(name string, flag int, perm os.FileMode) (afero.File,
 //	       stdout  the process' standard output: phout WITHOUT a destination (the zero value of the
 //	               config, DefaultPhoutConfig), datasink.NewStdout() for the encoder aggregators
 //	       stderr  datasink.NewStderr() (encoder aggregators only)
+//	       buffer  datasink.NewBuffer() already holding <old> (encoder aggregators only; appended to, never closed)
+//	       ro      a destination that cannot be opened (read-only file system; for tab a DataSinkFunc
+//	               returning the error): building / running the aggregator must fail, not report success
 //	       For the stream destinations os.Stdout / os.Stderr point to a scratch file while the
 //	       aggregator is built (the constructors read the variable once); after Run the stream must
 //	       hold what it held before followed by exactly this run's lines.
 //
+//	fail   (optional, -1 = never; dest file only) the destination accepts that many bytes, then every
+//	       Write fails (short write + error). Reports are made before Run (mode pre).
+//
+// fmt also: tabc = tab with an encoder that implements io.Closer and NEEDS its Close (the LF of the last
+// line is written by the next Encode or by Close); log = aggregator.NewLog() (queue of 128, one log
+// record "Sample reported: <line>" per sample; the records are the destination).
+//
 // observation:  <err> <order> <payload>
 //
-//	err      nil | dropped:<n> | other | hang | panic
+//	err      nil | dropped:<n> | ioerr (the injected write failure, possibly joined with drops) | openerr | other | hang | panic
 //	order    ids of the Reports in completion order (pre, ser) or "-" (free)
 //	payload  hex:<destination bytes>  (phout, phoutid, tab)  |  ids:<id,...>;bad=<n>  (json: every line parsed with encoding/json)
 //	         json on a stream: the payload describes the bytes after the first len(old) ones, and a
@@ -179,7 +271,21 @@ func runAggr(f []string) (obs string) {
 	}
 	var stream *os.File
 	var oldStream []byte
-	if dest != "file" {
+	failAt := int64(-1)
+	if len(f) > 12 {
+		failAt, _ = strconv.ParseInt(f[12], 10, 64)
+	}
+	var buffer *datasink.Buffer
+	if dest == "ro" {
+		fs = afero.NewReadOnlyFs(fs)
+	} else if dest == "buffer" {
+		if len(f[10]) < 2 || f[10][0] != 'x' {
+			return "other - unknown-dest"
+		}
+		oldStream = vh.UnHex(f[10][1:])
+		buffer = datasink.NewBuffer()
+		buffer.Write(oldStream)
+	} else if dest != "file" {
 		if (dest != "stdout" && dest != "stderr") || len(f[10]) < 2 || f[10][0] != 'x' {
 			return "other - unknown-dest"
 		}
@@ -198,6 +304,9 @@ func runAggr(f []string) (obs string) {
 			return "other - setup"
 		}
 	}
+	if failAt >= 0 {
+		fs = &failFs{Fs: fs, left: failAt}
+	}
 	if len(f) > 9 {
 		if ms, _ := strconv.Atoi(f[9]); ms > 0 {
 			fs = &stallFs{Fs: fs, stall: time.Duration(ms) * time.Millisecond}
@@ -207,11 +316,17 @@ func runAggr(f []string) (obs string) {
 	var run func(ctx context.Context) error
 	var report reporter
 	deps := core.AggregatorDeps{Log: zap.NewNop()}
+	var records *observer.ObservedLogs
 	var sink core.DataSink
 	withStd(dest, stream, func() {
 		switch dest {
-		case "file":
+		case "buffer":
+			sink = buffer
+		case "file", "ro":
 			sink = datasink.NewFile(fs, datasink.FileConfig{Path: "out"})
+			if dest == "ro" && (format == "tab" || format == "tabc") {
+				sink = coreutil.DataSinkFunc(func() (io.WriteCloser, error) { return nil, errors.New("sink cannot be opened") })
+			}
 		case "stdout":
 			sink = datasink.NewStdout()
 		case "stderr":
@@ -225,7 +340,7 @@ func runAggr(f []string) (obs string) {
 			Buffer: coreutil.BufferSizeConfig{BufferSize: datasize.ByteSize(bufsize)},
 		}
 		switch dest {
-		case "file":
+		case "file", "ro":
 		case "stdout":
 			conf.Destination = "" // no destination: results go to standard output
 		default:
@@ -235,6 +350,9 @@ func runAggr(f []string) (obs string) {
 		var err error
 		withStd(dest, stream, func() { a, err = netsample.NewPhout(fs, conf) })
 		if err != nil {
+			if dest == "ro" && a == nil {
+				return "openerr - -"
+			}
 			return "other - open:" + err.Error()
 		}
 		run = func(ctx context.Context) error { return a.Run(ctx, deps) }
@@ -248,7 +366,17 @@ func runAggr(f []string) (obs string) {
 		a := aggregator.NewJSONLinesAggregator(conf)
 		run = func(ctx context.Context) error { return a.Run(ctx, deps) }
 		report = func(id uint64) { a.Report(mkJSONSample(id)) }
-	case "tab":
+	case "log":
+		if dest != "file" {
+			return "other - unknown-dest"
+		}
+		var zc zapcore.Core
+		zc, records = observer.New(zap.InfoLevel)
+		deps = core.AggregatorDeps{Log: zap.New(zc)}
+		a := aggregator.NewLog()
+		run = func(ctx context.Context) error { return a.Run(ctx, deps) }
+		report = func(id uint64) { a.Report(mkSample(id)) }
+	case "tab", "tabc":
 		conf := aggregator.DefaultEncoderAggregatorConfig()
 		conf.Sink = sink
 		conf.ReporterConfig.SampleQueueSize = q
@@ -257,6 +385,9 @@ func runAggr(f []string) (obs string) {
 			size := bufsize
 			if size < 16 {
 				size = 16
+			}
+			if format == "tabc" {
+				return &tabCloserEncoder{w: bufio.NewWriterSize(ioutil2.NewCallbackWriter(w, onFlush), size)}
 			}
 			return &tabEncoder{w: bufio.NewWriterSize(ioutil2.NewCallbackWriter(w, onFlush), size)}
 		}, conf)
@@ -347,6 +478,10 @@ func runAggr(f []string) (obs string) {
 			dropped = d
 		}
 		switch {
+		case strings.Contains(err.Error(), errInjected.Error()):
+			errField = "ioerr"
+		case dest == "ro":
+			errField = "openerr"
 		case dropped != nil && err.Error() == fmt.Sprintf("%d samples were dropped", dropped.Dropped):
 			errField = fmt.Sprintf("dropped:%d", dropped.Dropped)
 		case strings.HasPrefix(err.Error(), "panic:"):
@@ -370,13 +505,24 @@ func runAggr(f []string) (obs string) {
 	var rerr error
 	if stream != nil {
 		data, rerr = os.ReadFile(stream.Name())
+	} else if buffer != nil {
+		data = buffer.Bytes()
+	} else if records != nil {
+		for _, e := range records.All() {
+			data = append(data, strings.TrimPrefix(e.Message, "Sample reported: ")...)
+			data = append(data, '\n')
+		}
+	} else if dest == "ro" {
+		if ok, _ := afero.Exists(fs, "out"); ok {
+			rerr = errors.New("exists")
+		}
 	} else {
 		data, rerr = afero.ReadFile(fs, "out")
 	}
 	if rerr != nil {
 		return errField + " " + orderField + " unreadable"
 	}
-	if stream != nil && format == "json" {
+	if (stream != nil || buffer != nil) && format == "json" {
 		n := len(oldStream)
 		if n > len(data) {
 			n = len(data)
@@ -502,8 +648,11 @@ func genAggr(r *vh.Rand, tier string) []string {
 	for i := 0; i < ns; i++ {
 		format := formats[i%4]
 		dest := "stdout"
-		if (format == "json" || format == "tab") && r.Chance(1, 3) {
-			dest = "stderr"
+		if format == "json" || format == "tab" {
+			dest = r.Pick([]string{"stdout", "stdout", "stderr", "buffer"})
+			if format == "tab" && r.Chance(1, 2) {
+				format = "tabc"
+			}
 		}
 		q := r.Range(1, 64)
 		g := r.Range(1, 8)
@@ -533,6 +682,59 @@ func genAggr(r *vh.Rand, tier string) []string {
 			old = []byte("pandora: results follow")
 		}
 		out = append(out, fmt.Sprintf("aggr %s %d %d %d %s %d %d %d 0 x%s %s", format, q, g, per, mode, delay, bufsize, r.U64()%1000000, vh.Hex(old), dest))
+	}
+	// more aggregator / encoder kinds: the log aggregator (queue of 128), an encoder that needs its Close
+	nk := 20
+	if tier == "thorough" {
+		nk = 200
+	}
+	for i := 0; i < nk; i++ {
+		format := []string{"log", "tabc"}[i%2]
+		q := r.Range(1, 64)
+		if format == "log" {
+			q = 128
+		}
+		g := r.Range(1, 8)
+		per := r.Range(0, 60)
+		mode := r.Pick([]string{"pre", "pre", "ser", "ser", "free"})
+		delay := r.PickInt([]int{0, 0, 0, 1, 3})
+		if mode == "pre" {
+			if format == "log" {
+				for g*per > q {
+					per--
+				}
+			}
+			delay = r.PickInt([]int{-1, -1, 0, 2, 5, 10}) // -1: the queue is full of samples when Run sees the cancel
+		}
+		c := fmt.Sprintf("aggr %s %d %d %d %s %d %d %d", format, q, g, per, mode, delay, r.PickInt([]int{0, 1, 4096, 65536}), r.U64()%1000000)
+		if format == "tabc" && r.Chance(1, 3) {
+			c += " 0 " + r.Pick([]string{"e", "s", "l", "m"})
+		}
+		out = append(out, c)
+	}
+	// a destination that cannot be opened; a destination that fails after some bytes (reports before Run)
+	for _, format := range []string{"phout", "json", "tab", "tabc"} {
+		out = append(out, fmt.Sprintf("aggr %s %d %d %d pre 0 4096 %d 0 e ro", format, r.Range(4, 16), r.Range(1, 2), r.Range(1, 2), r.U64()%1000000))
+	}
+	nf := 16
+	if tier == "thorough" {
+		nf = 300
+	}
+	for i := 0; i < nf; i++ {
+		format := []string{"phout", "phoutid", "json", "tab", "tabc", "phoutid", "json", "tab"}[i%8]
+		g := r.Range(1, 4)
+		per := r.Range(1, 12)
+		if i%2 == 1 { // more bytes than the smallest write buffer (4 kB): the failure hits while samples are handled
+			per = r.Range(30, 60)
+		}
+		q := g*per + r.Intn(3)
+		if (format == "json" || strings.HasPrefix(format, "tab")) && r.Chance(1, 3) {
+			q = r.Range(1, g*per) // some reports are dropped before Run starts
+		}
+		total := 60 * g * per // roughly the bytes of all lines
+		failAt := r.PickInt([]int{0, 1, r.Intn(70), r.Intn(total + 1), r.Intn(total + 1), total / 2, 1 << 20})
+		out = append(out, fmt.Sprintf("aggr %s %d %d %d pre %d %d %d 0 e file %d", format, q, g, per,
+			r.PickInt([]int{0, 2, 5}), r.PickInt([]int{1, 1, 16, 100, 4096}), r.U64()%1000000, failAt))
 	}
 	// a stalling destination: the queue is full for seconds; a blocking Report must keep waiting,
 	// a dropping one must count. (Run concurrently, so the wall time is that of the longest stall.)
